@@ -1,5 +1,5 @@
 """Per-property configuration of bin/check."""
-from cli_checks import c13_step, c14_step, c17_step, c19_step
+from cli_checks import c13_step, c14_step, c17_step, c19_step, c05_step
 
 TRUSTED_BASE = [
     "Lean 4.33.0 kernel (thorough tier: re-checked by leanchecker)",
@@ -43,7 +43,7 @@ PROPS = {
         "suites": ["pipeline", "programs", "unify"],
         "assumptions": ["progress is decided per program on the implementation (search) and by the stuck-term classification theorem on the model; subject reduction is not proved"],
     },
-    "C05": {"suites": ["programs", "unify", "pipeline"], "assumptions": ["completeness of the checker is decided per generated program (type-directed generator with its own expected type), not proved"]},
+    "C05": {"suites": ["programs", "unify", "pipeline"], "extra": [c05_step], "assumptions": ["completeness of the checker is decided per generated program (type-directed generator with its own expected type), not proved"]},
     "C12": {"suites": ["unify", "debruijn"], "assumptions": ["soundness of unification w.r.t. the declarative conversion is proved for the model when no hole is copied and every hole sits at least as deep as its shift (C12_unify_sound_fixed); outside these hypotheses it is false of the code (recorded findings) and the solutions are validated per run on the implementation"]},
     "C18": {"suites": ["unify", "programs", "pipeline"], "assumptions": ["agreement with the closed program (wrapping a context into binders) is not proved; restoration is proved for the model and observed on the implementation for every call"]},
     "C13": {"suites": [], "extra": [c13_step],
